@@ -186,6 +186,7 @@ func TestCheck(t *testing.T) {
 	r.Floor("plaintext_refusals", nn/25)
 	r.Floor("upgrades", nn/8)
 	r.Floor("http_requests_to_alias_only_origins", nn/40)
+	r.Floor("service_targets_without_address", nn/10)
 	r.Floor("pooled_reuses", nn/2)
 	r.Floor("cross_origin_same_address_pairs", nn/10)
 	r.Floor("cross_origin_same_address_pairs_h3", nn/60)
@@ -292,6 +293,7 @@ func (w *world) judge(r *mon.Run, outs []outcome) {
 		reqOf[cs.Reqs[k].Marker] = &cs.Reqs[k]
 	}
 	models := make([]*model, len(cs.Origins))
+	r.Count("service_targets_without_address", int64(cs.NoAddrTargets))
 	for k, o := range cs.Origins {
 		models[k] = buildModel(cs.zone, o, w.plainPort)
 		if models[k].Aliased {
